@@ -52,7 +52,7 @@ class C12(Prop):
     }
     rule_text = (
         "one case = flavour (sync/async function, sync/async method) x limit 1..4 x expiration {None, 1/8, 1, 5} x a "
-        "history of <=60 ops over call(form)/advance/gc-check/drop-receiver with arguments from {1, 1.0, True, '1', 2, "
+        "history of <=60 ops over call(form)/advance/gc-check/drop-receiver/replace-receiver/shallow-copy-receiver with arguments from {1, 1.0, True, '1', 2, "
         "(1,)} in positional and keyword forms on 1..3 receivers (two of them ==-equal but distinct); distinct = "
         "distinct event-log digest (program included); non-trivial = the history reached an eviction, an expiry, or "
         "a call at age == expiration"
@@ -82,7 +82,7 @@ class C12(Prop):
         n_a = 2 + s.draw(len(A_VALUES) - 1, "alphabet")
         ops = []
         for _ in range(n_ops):
-            k = s.weighted((12, 3, 1, 1, 1 if n_recv else 0) if profile in ("history", "deep") else (8, 6, 1, 0, 0), "op")
+            k = s.weighted((12, 3, 1, 1, 1 if n_recv else 0, 1 if "method" in flavour else 0) if profile in ("history", "deep") else (8, 6, 1, 0, 0, 0), "op")
             if k == 0:
                 form = s.weighted((4, 2, 1, 1), "form")
                 a = s.draw(n_a, "a")
@@ -94,8 +94,10 @@ class C12(Prop):
                 ops.append(["gc"])
             elif k == 3:
                 ops.append(["drop", s.draw(n_recv, "recv")])
-            else:
+            elif k == 4:
                 ops.append(["replace", s.draw(n_recv, "recv")])
+            else:
+                ops.append(["clone", s.draw(n_recv, "recv")])
         sim.program = {"flavour": flavour, "limit": limit, "expiration_steps": exp_steps, "receivers": n_recv,
                        "ops": ops}
 
@@ -193,6 +195,17 @@ class C12(Prop):
                         receivers[op[1]] = Host(old_value, op[1])
                         sim.stats["receiver_replaced"] += 1
                         sim.event("replace-receiver", op[1])
+                elif kind == "clone":
+                    if target is None and receivers.get(op[1]) is not None:
+                        # the receiver is replaced by a shallow copy of itself (copy.copy clones its __dict__): the copy is a
+                        # different object, so it is a different key and its method must run with the copy as self
+                        import copy
+                        clone = copy.copy(receivers[op[1]])
+                        Receiver.generations += 1
+                        clone.gen = Receiver.generations
+                        receivers[op[1]] = clone
+                        sim.stats["receiver_cloned"] += 1
+                        sim.event("clone-receiver", op[1])
                 else:
                     _k, ridx, form, ai, bi, raises = op
                     a = A_VALUES[ai]
